@@ -4,7 +4,7 @@ import re
 import sys
 sys.path.insert(0, os.path.dirname(os.path.dirname(os.path.abspath(__file__))))
 from lib.core import existing_modules
-from props import c01, c03, c05, c06, c09, c10, c11
+from props import c01, c03, c05, c06, c09, c10, c11, c04, c07, c08, c19, c20
 
 ID = "C15"
 LEVEL = "proof"
@@ -13,9 +13,9 @@ REQUIRED_THEOREMS = ["Sonic.Props.C15." + n for n in ["C15_string_width_independ
                                                      "C15_memcmp_prod_eq_san", "C15_parse_width_independent", "C15_serialize_config_independent",
                                                      "C15_ondemand_width_independent", "C15_lazy_width_independent"]]
 CONFIGS = [("avx2", "prod"), ("sse", "prod"), ("dyn", "prod"), ("avx2", "san"), ("sse", "san"), ("dyn", "san")]
-SRC = {"c01": c01, "c03": c03, "c05": c05, "c06": c06, "c09": c09, "c10": c10, "c11": c11}
+SRC = {"c01": c01, "c03": c03, "c04": c04, "c05": c05, "c06": c06, "c07": c07, "c08": c08, "c09": c09, "c10": c10, "c11": c11, "c20": c20}
 RULE = ("the corpus lines of C01 (accept/reject: valid, prefixes, mutations), C03 (trees), C05 (string literals), C06 (serialisation), C09 "
-        "(quoting), C10/C11 (on-demand) are run unchanged through all six binaries {static AVX2, static SSE4.2, runtime dispatch} x "
+        "(quoting), C10/C11 (on-demand), C04 (number conversion), C07/C08 (number printing), C20 (UpdateLazy) are run unchanged through all six binaries {static AVX2, static SSE4.2, runtime dispatch} x "
         "{production, sanitizer}; every binary must match the Lean model instantiated at its vector width (L1+L2), and the six outputs "
         "must agree with each other except for the code/offset of an error inside a malformed string literal.  distinct = distinct "
         "command line; non-trivial = as in the source corpus")
